@@ -11,6 +11,12 @@ use crate::mon::*;
 pub fn run(out: &RunOut, m: &mut MonOut) {
     let p = "C19";
     for r in &out.hist {
+        if let Kind::TimerParts { destructure, accessors, .. } = &r.kind {
+            m.count("R5.deadline_components_read_both_ways");
+            if destructure != accessors {
+                m.viol(p, "R5", format!("L{}@{}", r.life, r.seq), format!("a deadline's components through the accessors {accessors:?} differ from destructure {destructure:?}"));
+            }
+        }
         if let Kind::TimerCmp { phase, now_wall, now_mono, deadline, lib, .. } = &r.kind {
             let wall_reached = deadline.wall.map(|w| *now_wall >= w);
             let mono_reached = deadline.mono.map(|mo| *now_mono >= mo);
